@@ -7,5 +7,5 @@ P=/verif/seeded/$ID/patch.diff
 [ -f $P ] || { echo "no such seed $ID"; exit 2; }
 S=/var/tmp/seedrun-$$; rm -rf $S; mkdir -p $S; cp -r /repo/src $S/src
 patch -s -p1 -d $S < $P || { echo "DOES NOT APPLY TO COPY"; rm -rf $S; exit 2; }
-for c in "$@"; do echo "== check $c on copy with $ID"; PFST_REPO=$S ./check $c --tier ${TIER:-quick} 2>&1 | grep -E "VIOLATION|HELD|VIOLATED|BROKEN" | head -4; done
+for c in "$@"; do echo "== check $c on copy with $ID"; PFST_REPO=$S VERIF_EVIDENCE_DIR=$S/evidence ./check $c --tier ${TIER:-quick} 2>&1 | grep -E "VIOLATION|HELD|VIOLATED|BROKEN" | head -4; done
 rm -rf $S
